@@ -103,14 +103,14 @@ func (C08) Generate(r *core.Rand, tier string, idx int) *core.Scenario {
 	c8Init()
 	sc := &core.Scenario{Property: "C08", Cfg: map[string]int{}}
 	// input classes whose defects were repaired: each in half of the runs
-	for _, k := range []string{"k_existsid", "k_updremote", "k_noflags", "k_quote", "k_randmember"} {
+	for _, k := range []string{"k_existsid", "k_updremote", "k_noflags", "k_quote", "k_randmember", "k_flagcase"} {
 		if r.P(1, 2) {
 			sc.Cfg[k] = 1
 		}
 	}
 	// input classes with an open finding: one of them in a quarter of the runs
-	if r.P(1, 4) {
-		sc.Cfg[[]string{"k_flagcase", "k_comma"}[r.Intn(2)]] = 1
+	if r.P(1, 8) {
+		sc.Cfg["k_comma"] = 1
 	}
 	bulk := r.P(1, 4)
 	if bulk {
